@@ -19,6 +19,14 @@ def chunks (k : Nat) : Nat → Bytes → List Bytes
   | fuel + 1, rest =>
     if rest.isEmpty then [] else rest.take k :: chunks k fuel (rest.drop k)
 
+/-- the `for i, payload := range payloads` loop of the VP8 / VP9 `Encode` (identical in both):
+one packet per payload, consecutive sequence numbers, marker on the last -/
+def emit (c : EncCfg) : UInt16 → List Bytes → List Pkt
+  | _, [] => []
+  | sq, [pl] => [{ pt := c.pt, seq := sq, ssrc := c.ssrc, marker := true, payload := pl }]
+  | sq, pl :: rest =>
+    { pt := c.pt, seq := sq, ssrc := c.ssrc, marker := false, payload := pl } :: emit c (sq + 1) rest
+
 /-- test of one bit of a byte: Go `b & mask != 0` -/
 @[inline] def tb (b : UInt8) (mask : UInt8) : Bool := (b &&& mask) != 0
 
